@@ -2455,3 +2455,40 @@ def _hashset_contains(I, a, d):
         if truthy(I, I.call_trait_method("PartialEq", "eq", [Ref(ValLoc(x)), a[1]]), "hashset-contains"):
             return True
     return False
+
+
+def _fn_call(I, a, d):
+    tup = a[1]
+    unpacked = list(tup.fields) if isinstance(tup, Agg) else ([] if tup is UNIT else [tup])
+    return I.call_value(a[0], unpacked)
+
+
+for _tr, _m in (("Fn", "call"), ("FnMut", "call_mut"), ("FnOnce", "call_once")):
+    T.trait(_tr, _m)(_fn_call)
+
+
+@T.trait("Ord", "min")
+def _ord_min(I, a, d):
+    x, y = a
+    if is_sym(x) or is_sym(y):
+        w = x.size() if is_sym(x) else y.size()
+        return z3.If(z3.ULE(bv(x, w), bv(y, w)), bv(x, w), bv(y, w))
+    if isinstance(x, int) and isinstance(y, int):
+        return min(x, y)
+    return y if key_less(I, y, x, "min") else x
+
+
+@T.trait("Ord", "max")
+def _ord_max(I, a, d):
+    x, y = a
+    if is_sym(x) or is_sym(y):
+        w = x.size() if is_sym(x) else y.size()
+        return z3.If(z3.UGE(bv(y, w), bv(x, w)), bv(y, w), bv(x, w))
+    if isinstance(x, int) and isinstance(y, int):
+        return max(x, y)
+    return x if key_less(I, y, x, "max") else y
+
+
+@T.trait("Ord", "clamp")
+def _ord_clamp(I, a, d):
+    return _ord_min(I, [_ord_max(I, [a[0], a[1]], d), a[2]], d)
